@@ -134,7 +134,7 @@ def _xs_variant(rng, nom):
 
 def gen_seq(rng, maxlen):
     k = rng.randint(1, 4)
-    cfg = dict(k=k, thr=rng.choice([2, 3, 3, 4, 6]), n0=rng.choice([2, 3, 5, 6, 10, 10, 20]),
+    cfg = dict(k=k, thr=rng.choice([1, 2, 3, 3, 4, 6]), n0=rng.choice([2, 3, 5, 6, 10, 10, 20]),
                adapt=rng.random() < 0.5, bad=None)
     if rng.random() < 0.45:
         c = rng.randint(-24, 24) / GRID
@@ -188,7 +188,8 @@ def gen_seq(rng, maxlen):
                               np.spacing(abs(nom[1]) if nom[1] else 1.0))
             nlo = rng.choice([0, 1, 2, 2, 4, 8, 3])
             nhi = rng.choice([0, 1, 2, 2, 4, 8, 3])
-            ops.append(dict(op="extend", a=a, b=b, nlo=nlo, nhi=nhi))
+            ops.append(dict(op="extend", a=a, b=b, nlo=nlo, nhi=nhi,
+                            counts=rng.choice(["int", "int", "npint", "float"])))
             nom = (a, b) if nom is None else (min(a, nom[0]), max(b, nom[1]))
         elif r < 0.78:
             ops.append(dict(op="modes", lo=rng.choice(MODES), hi=rng.choice(MODES)))
@@ -479,7 +480,8 @@ def apply_op(f, op, tmpdir):
         return f.derivative(make_input(op), order=op["order"], bUseInterpolation=op["use"],
                             epsilon=1.0, scale=2.0 ** -op["dxexp"])
     if o == "extend":
-        return f.extendInterpolationTable(op["a"], op["b"], op["nlo"], op["nhi"])
+        ct = dict(int=int, npint=np.int64, float=float)[op.get("counts", "int")]
+        return f.extendInterpolationTable(op["a"], op["b"], ct(op["nlo"]), ct(op["nhi"]))
     if o == "modes":
         return f.setExtrapolationType(mode_of(op["lo"]), mode_of(op["hi"]))
     if o == "enable":
@@ -1554,6 +1556,49 @@ def ulp_hazards(ctx, rng, n):
                       "extend-degenerate-step")
 
 
+def notable_ulp(ctx):
+    """no table yet, adaptive on: evaluations hovering within a few ulp of one point (a root
+    finder converging) until the threshold is reached, then two well separated points"""
+    cls = make_real_class()
+    for k in (1, 2):
+        for x0 in (0.75, -0.25, 80.0, -1e-3):
+            for j in (1, 2, 7, 1000):
+                f = cls(None, bUseAdaptiveInterpolation=True, initialInterpolationPointCount=20,
+                        returnValueCount=k)
+                f._evaluationsUntilAdaptiveUpdate = 4
+                sp = np.spacing(abs(x0)) if x0 else np.spacing(1.0)   # (denormal spacings: out of scope)
+                xs = [float(x0 + ((i * 3) % (j + 1)) * sp) for i in range(9)]
+                rep = dict(kind="notable_ulp", k=k, x0=x0, ulps=j, points=xs, threshold=4)
+                ctx.count("notable_ulp", rep)
+                try:
+                    for x in xs:
+                        had = f.hasInterpolation()
+                        r = np.asarray(f(x))
+                        w = fval(x, k, None, 0)
+                        if (not had and not np.array_equal(r, w)) or np.max(np.abs(r - w)) > 1e-9:
+                            fail_once(ctx, "evaluation at %r (%s table) returns %s, function value "
+                                      "%s" % (x, "with a" if had else "without a", r.tolist(),
+                                              w.tolist()), rep, "adaptive-degenerate-range")
+                    if f.hasInterpolation():
+                        t = np.asarray(f._interpolationPoints)
+                        e0, e1 = spline_errors(f, k)
+                        if not np.all(np.diff(t) > 0) or e0 > 1e-9 or e1 > 1e-5:
+                            fail_once(ctx, "table seeded from evaluations %g ulp apart: %d points "
+                                      "over [%r, %r], errors %.3g / %.3g" % (
+                                          j, len(t), t[0], t[-1], e0, e1), rep,
+                                      "adaptive-degenerate-range")
+                    for x in (x0 + 1.0, x0 + 0.5, x0 + 0.25, x0 + 0.75):
+                        f(x)
+                    if not f.hasInterpolation():
+                        fail_once(ctx, "no table built after evaluations at well separated points "
+                                  "past the threshold", rep, "adaptive-no-table")
+                except Exception as e:  # noqa
+                    fail_once(ctx, "no table, adaptive threshold 4: evaluations within %g ulp of %r "
+                              "raise %s: %s (the adaptive update seeds a table from points a "
+                              "rounding error apart)" % (j, x0, type(e).__name__, str(e)[:60]), rep,
+                              "adaptive-degenerate-range")
+
+
 def defaults_family(ctx):
     """constructor defaults (adaptive, threshold 500, 1000 points), __call__, derivative() with
     its default epsilon/scale, the accessors: the history of the audit's clean-tree input and
@@ -1782,6 +1827,7 @@ def run(ctx):
     float_hazards(ctx, ctx.rng, ctx.n(2000, 60000))
     ulp_hazards(ctx, ctx.rng, ctx.n(150, 3000))
     degenerate_hazard(ctx)
+    notable_ulp(ctx)
     defaults_family(ctx)
     derived_classes(ctx)
     ctx.cov["rule"] = (
